@@ -89,7 +89,21 @@ func (revolut) Generate(r *rand.Rand, o Opts) *Statement {
 				st.feature("paid-in")
 			}
 			bal = bal.Add(e)
-			line = csvLine(';', date(day), csvField(ref, ';', false), po, pi, "", "", amt(bal), nbsp, cats[r.Intn(len(cats))])
+			xo, xi, rate := "", "", nbsp
+			if r.Intn(5) == 0 {
+				// a card payment (or refund) in a foreign currency: the export fills the
+				// Exchange column with the foreign amount, but it is an ordinary booking
+				oc := otherCurrency(r, cur)
+				oa := randCents(r)
+				if out {
+					xo = oc + " " + nbsp + oa.Group("'")
+				} else {
+					xi = oc + " " + nbsp + oa.Group("'")
+				}
+				rate = fmt.Sprintf("FX-rate \u20ac\u00a0 1\u2008=\u2008%s\u00a0 1.%04d", oc, r.Intn(10000))
+				st.feature("foreign-card-payment")
+			}
+			line = csvLine(';', date(day), csvField(ref, ';', false), po, pi, xo, xi, amt(bal), rate, cats[r.Intn(len(cats))])
 			st.Txns = append(st.Txns, Txn{Date: day, Import: eff(cur, e), Row: i, Note: "booking"})
 			st.RowNotes = append(st.RowNotes, fmt.Sprintf("%s %s %s", day, e.Fixed(), cur))
 		}
